@@ -160,7 +160,7 @@ pub fn iterate(img: &Image, in_sub: bool) -> IterRes {
             out.push(Seen { long, short, attr, len });
         }
         drop(dir);
-        std::mem::forget(fs);
+        drop(fs);
         Ok(out)
     }));
     match r {
